@@ -408,6 +408,77 @@ impl Gen for WideEnum {
     }
 }
 
+/// lifetime-carrying derive user (borrowed fields; values borrow from a static pool)
+#[derive(Serialize, Schema, Debug, Clone, PartialEq)]
+pub struct BorrowedS<'a> {
+    pub s: &'a str,
+    pub b: &'a [u8],
+    pub inner: Option<&'a str>,
+    pub n: u16,
+}
+const STR_POOL: &[&str] = &["", "a", "hello", "héllo wörld", "名前", "0123456789012345678901234567890123456789"];
+const BYTES_POOL: &[&[u8]] = &[&[], &[0], &[1, 2, 3], &[0xFF; 40], &[0, 0, 0, 0]];
+impl Gen for BorrowedS<'static> {
+    fn gen(s: &mut Src) -> Self {
+        BorrowedS {
+            s: STR_POOL[s.below(STR_POOL.len())],
+            b: BYTES_POOL[s.below(BYTES_POOL.len())],
+            inner: if s.byte() % 2 == 0 { None } else { Some(STR_POOL[s.below(STR_POOL.len())]) },
+            n: Gen::gen(s),
+        }
+    }
+    fn extremes() -> Vec<Self> {
+        vec![BorrowedS { s: STR_POOL[5], b: BYTES_POOL[3], inner: Some(STR_POOL[3]), n: u16::MAX }]
+    }
+}
+
+/// const-generic derive user
+#[derive(Serialize, Deserialize, Schema, MaxSize, Debug, Clone, PartialEq)]
+pub struct ConstGen<const N: usize> {
+    pub head: u8,
+    #[serde(with = "serde_arr")]
+    pub body: [u16; N],
+    pub tail: Option<i32>,
+}
+/// serde only implements arrays up to 32 via macros for Deserialize; route through a tuple-like helper
+mod serde_arr {
+    use serde::de::{SeqAccess, Visitor};
+    use serde::ser::SerializeTuple;
+    use serde::{Deserializer, Serializer};
+    pub fn serialize<S: Serializer, const N: usize>(v: &[u16; N], s: S) -> Result<S::Ok, S::Error> {
+        let mut t = s.serialize_tuple(N)?;
+        for x in v {
+            t.serialize_element(x)?;
+        }
+        t.end()
+    }
+    pub fn deserialize<'de, D: Deserializer<'de>, const N: usize>(d: D) -> Result<[u16; N], D::Error> {
+        struct V<const N: usize>;
+        impl<'de, const N: usize> Visitor<'de> for V<N> {
+            type Value = [u16; N];
+            fn expecting(&self, f: &mut std::fmt::Formatter) -> std::fmt::Result {
+                write!(f, "an array of {}", N)
+            }
+            fn visit_seq<A: SeqAccess<'de>>(self, mut seq: A) -> Result<[u16; N], A::Error> {
+                let mut out = [0u16; N];
+                for (i, slot) in out.iter_mut().enumerate() {
+                    *slot = seq.next_element()?.ok_or_else(|| serde::de::Error::invalid_length(i, &self))?;
+                }
+                Ok(out)
+            }
+        }
+        d.deserialize_tuple(N, V::<N>)
+    }
+}
+impl<const N: usize> Gen for ConstGen<N> {
+    fn gen(s: &mut Src) -> Self {
+        ConstGen { head: Gen::gen(s), body: Gen::gen(s), tail: Gen::gen(s) }
+    }
+    fn extremes() -> Vec<Self> {
+        vec![ConstGen { head: 255, body: [u16::MAX; N], tail: Some(i32::MIN) }, ConstGen { head: 0, body: [0; N], tail: None }]
+    }
+}
+
 macro_rules! big_enum {
     ($name:ident, $n:expr, [$($v:ident),*]) => {
         #[derive(Serialize, Deserialize, Schema, MaxSize, Debug, Clone, Copy, PartialEq)]
@@ -602,6 +673,10 @@ pub fn types() -> Vec<CorpusType> {
     v.push(base::<[OneVariant; 3]>("[OneVariant; 3]").schema::<[OneVariant; 3]>().max::<[OneVariant; 3]>(true).de::<[OneVariant; 3]>().json());
     v.push(base::<heapless07::Vec<UnitS, 3>>("heapless07::Vec<UnitS,3>").schema::<heapless07::Vec<UnitS, 3>>().de::<heapless07::Vec<UnitS, 3>>());
     full!(v, WideEnum, bounded);
+    v.push(base::<BorrowedS<'static>>("BorrowedS<'a>").schema::<BorrowedS<'static>>().json());
+    full!(v, ConstGen<0>, bounded);
+    full!(v, ConstGen<3>, bounded);
+    full!(v, ConstGen<40>, bounded);
     // third-party impls
     full!(v, uuid::Uuid, schema_nojson);
     full!(v, chrono::DateTime<chrono::Utc>, schema);
